@@ -87,19 +87,20 @@ type zzRec struct {
 }
 
 type zzMon struct {
-	recs       []zzRec
-	incs       int
-	crashes    int
-	internal   int // crashes whose panic value was an *InternalError
-	maxCrashes int
-	crashInit  bool // lifecycle handlers may crash (decided per incarnation)
-	crashStop  bool // the Stopped handler may crash too (prop 7: every stop context still becomes done)
-	mwN        int
-	mwActive   []int
-	mwSeen     []any
-	prop       int
-	pillSeen   bool
-	onUser     func(seq int) // called before a user message is recorded
+	recs        []zzRec
+	incs        int
+	crashes     int
+	internal    int // crashes whose panic value was an *InternalError
+	maxCrashes  int
+	crashInit   bool // lifecycle handlers may crash (decided per incarnation)
+	crashStop   bool // the Stopped handler may crash too (prop 7: every stop context still becomes done)
+	mwN         int
+	mwActive    []int
+	mwSeen      []any
+	sentSenders []*PID // by zzUser.Seq: the sender given at the send (L1 harness)
+	prop        int
+	pillSeen    bool
+	onUser      func(seq int) // called before a user message is recorded
 }
 
 func (m *zzMon) crash(what string) {
@@ -170,6 +171,9 @@ func (a *zzActor) Receive(c *Context) {
 			m.onUser(msg.Seq)
 		}
 		m.recs = append(m.recs, zzRec{inc: a.inc, kind: zzKUser, seq: msg.Seq, payload: msg.Payload, sender: c.Sender()})
+		if m.prop == 13 && msg.Seq < len(m.sentSenders) {
+			zzrt.Assert(c.Sender() == m.sentSenders[msg.Seq], "C13:receiver-sees-the-sender-of-another-delivery")
+		}
 		if msg.Crash {
 			m.recs[len(m.recs)-1].crashed = true
 			m.crash("user")
@@ -217,6 +221,10 @@ func zzChain(n int, m *zzMon) []MiddlewareFunc {
 				}
 				m.mwActive = append(m.mwActive, i)
 				m.mwSeen = append(m.mwSeen, c.Message())
+				if u, ok := c.Message().(zzUser); ok && m.prop == 13 && u.Seq < len(m.sentSenders) {
+					// inside the chain the Context shows the sender of this delivery (nil when it was sent without one)
+					zzrt.Assert(c.Sender() == m.sentSenders[u.Seq], "C13:middleware-sees-the-sender-of-another-delivery")
+				}
 				defer func() {
 					m.mwActive = m.mwActive[:len(m.mwActive)-1]
 					m.mwSeen = m.mwSeen[:len(m.mwSeen)-1]
